@@ -555,3 +555,55 @@ def tie(reg, tier, rng, k, ctx):
         cs = sample(domain_cases(name, ad, gen, tier, rng), k, rng)
         out.append((name, ad, cs, adapters.run_adapter(ad, cs, rng, repeat_frac=0.15, with_spec=not ctx["props_ok"])))
     return out
+
+
+# ------------------------------------------------------------------ C01: parameter OBJECTS reused across calls
+
+def deep_state(obj):
+    """bit-level state of a parameter object (all attributes), for the purity comparison"""
+    return json.dumps({k: repr(core.snapshot(v)) for k, v in sorted(vars(obj).items())}, sort_keys=True)
+
+
+def clim_object_history(tier, rng, n_objects):
+    """A ClimatologyConfig OBJECT is built once and used for several calls with different series (other
+    times, other lengths), interleaved; every answer must equal the answer of a fresh call with the
+    documented list-of-dicts configuration, and the object must not be modified by any call."""
+    import warnings
+
+    import fn_clim
+    from ioos_qc import qartod
+
+    ad = fn_clim.Climatology()
+    pool = domain_cases("climatology_test", ad, fn_clim.gen_clim, tier, rng)
+    fails, n_eval = [], 0
+    for _ in range(n_objects):
+        base = rng.choice(pool)
+        if not base["cfg"]:
+            continue
+        with warnings.catch_warnings():
+            warnings.simplefilter("ignore")
+            obj = qartod.ClimatologyConfig.convert(ad.config(base))
+            state0 = deep_state(obj)
+            # series from other cases (other dates, other lengths), same configuration object
+            others = [base] + [rng.choice(pool) for _ in range(3)]
+            for other in others:
+                c = dict(other)
+                c["cfg"] = base["cfg"]
+                fresh, _ = ad.impl(c)
+                kw = {"config": obj,
+                      "inp": core.to_float_array([unfr(x) for x in c["xs"]]),
+                      "tinp": fn_clim.times_as(c.get("tkind", "ns"), c["ts"]),
+                      "zinp": core.to_float_array([unfr(x) for x in c["zs"]])}
+                got, mutated = core.call_impl(qartod.climatology_test, kw)
+                n_eval += 2
+                if got != fresh:
+                    fails.append({"kind": "history", "function": "climatology_test", "case": c, "impl": fresh,
+                                  "impl_shared_object": got,
+                                  "clause": "a ClimatologyConfig object reused across calls gives different flags than a "
+                                            "fresh configuration (hidden state in the parameter object)"})
+                    break
+                if deep_state(obj) != state0 or mutated:
+                    fails.append({"kind": "purity", "function": "climatology_test", "case": c, "impl": got,
+                                  "clause": "the call modified the caller's ClimatologyConfig object"})
+                    break
+    return n_eval, fails
